@@ -292,6 +292,10 @@ fn statement_for(x: &str, e: &str, te: &Ty, atomic: bool, parts: &mut Parts, ret
             let target = if te == &vec!["bool".to_string()] { "u8" } else if te == &vec!["i64".to_string()] { "i32" } else { "i64" };
             (format!("var r: {target} = {pe} as {target};"), false)
         }
+        "castsame" => {
+            let target = ty::syntax(te);
+            (format!("var r: {target} = {pe} as {target};"), false)
+        }
         "binop" => (format!("{} = {} + {};", annotated("r", te), pe, lit), false),
         "ret" => {
             *ret = Some(ty::syntax(te));
@@ -462,6 +466,8 @@ pub fn render(c: &Cell) -> Rendered {
     let mut construct_is_top = false;
     let (spa, spb) = c.spell();
     let (spa, spb) = (spa.to_string(), spb.to_string());
+    // the offending expression with its operands in their syntactic forms (fa / fb), for the expression contexts
+    let mut formed: Option<String> = None;
     if spa != "lit" || spb != "lit" {
         parts.top.extend(ty::LEN_CONSTS.iter().map(|s| s.to_string()));
     }
@@ -471,6 +477,7 @@ pub fn render(c: &Cell) -> Rendered {
             let eb = operand(&c.fb, &c.b, c.kb, "b", 4, &spb, &mut parts);
             let rt = expr_type(&c.a, c.ka);
             construct = format!("\t{} = {} {} {};", annotated("r", &rt), ea, op_text(&c.op), eb);
+            formed = Some(format!("{} {} {}", ea, op_text(&c.op), eb));
         }
         "cmp" => {
             let ea = operand(&c.fa, &c.a, c.ka, "a", 1, &spa, &mut parts);
@@ -563,6 +570,10 @@ pub fn render(c: &Cell) -> Rendered {
         // the offending expression in an expression context (the declarations of the direct form are dropped)
         parts.top.retain(|l| !l.starts_with("fn callee("));
         if let Some((e, te, atomic)) = offending_expression(c, &mut parts) {
+            let e = match &formed {
+                Some(f) if c.fa != "var" || c.fb != "var" => f.clone(),
+                _ => e,
+            };
             let (stmt, is_ret) = statement_for(&c.x, &e, &te, atomic, &mut parts, &mut ret);
             construct = format!("\t{stmt}");
             construct_is_return = is_ret;
